@@ -1,5 +1,7 @@
 import SaModel.Backend.Adapters
 import SaModel.Backend.BuildCore
+import SaModel.Backend.History
+import SaModel.Read.Access
 import SaModel.Spec.Decode
 import SaModel.Generated.ArrowVersions
 import SaModel.Lemmas.C19MapM
@@ -18,6 +20,15 @@ independent core and EVERY choice of marrow's conversions (`Core`, `Conv` are pa
   record_batch_fields   the batch's schema is the builder's own schema (metadata included), no schema level
                         metadata, the columns are those of `to_arrow`
   from_batch_needs_only_batch   reading a batch back equals reading its columns with the caller's fields
+  builder_reuse_agrees  ONE builder, any history of additions and builds through any mix of the four finishers
+                        (`Backend/History.lean`): build k through finisher f is f applied to the marrow arrays of
+                        build k, the builder keeps its schema and stays usable after a build that failed in a conversion
+  record_batch_schema_stable   every batch a builder ever hands out carries the fields of the schema it was created with
+                        (`Props/C19Reuse.lean`: with the builder model, build k = f applied to the one-shot conversion
+                        of batch k — C10 through every back end)
+  reader_count_mismatch_refused, readers_fail_together_on_counts   a different number of fields and arrays is refused by
+                        the reader constructors of all three families, the adapters' own check first
+                        (`Props/C19Gen.lean`: the bodies of these methods, regenerated from the sources, ARE the model)
   version_select_max    the selected arrow version is the maximum of the enabled ones
   gen_*                 the version tables regenerated from Cargo.toml / build.rs / lib.rs are consistent
                         (`decide` on `SaModel/Generated/ArrowVersions.lean`; these break when a version is
@@ -498,6 +509,283 @@ theorem from_batch_needs_only_batch (core : Core OB Items D Out) (cv : Conv AF A
   obtain ⟨_, _, hlen, _, hback⟩ := record_batch_fields_oneshot core cv validate afs fs hf items batch h
   rw [fromRecordBatch_eq, fromArrow_compose, fromArrow_compose, hback hFRT, hf, hlen]
 
+/-! ### one builder, many builds: the `ArrayBuilder` across calls (`Backend/History.lean`) -/
+
+/-- the one-call finishers of `Adapters.lean` are the stateful ones with the state dropped on failure -/
+theorem finishers_collapse (core : Core OB Items D Out) (cv : Conv AF AA) (validate : List AF → List AA → R Unit)
+    (self : ArrayBuilder OB) :
+    self.toMarrow core = collapse (self.toMarrowS core) ∧
+    self.toArrow core cv = collapse (self.toArrowS core cv) ∧
+    self.toArrow2 core cv = collapse (self.toArrow2S core cv) ∧
+    self.toRecordBatch core cv validate = collapse (self.toRecordBatchS core cv validate) := by
+  refine ⟨?_, ?_, ?_, ?_⟩ <;>
+  simp only [ArrayBuilder.toMarrow, ArrayBuilder.toArrow, ArrayBuilder.toArrow2, ArrayBuilder.toRecordBatch,
+    ArrayBuilder.toMarrowS, ArrayBuilder.toArrowS, ArrayBuilder.toArrow2S, ArrayBuilder.toRecordBatchS, collapse,
+    recordBatchOf, bind, Except.bind, pure, Except.pure] <;>
+  cases self.buildArrays core with
+  | error e => rfl
+  | ok p =>
+    first
+    | rfl
+    | (dsimp only
+       cases List.mapM cv.arrayOfMarrow p.1 with
+       | error e => rfl
+       | ok arrays =>
+         first
+         | rfl
+         | (dsimp only
+            cases fieldRefsOfSchema cv p.2.schema with
+            | error e => rfl
+            | ok fields =>
+              first
+              | rfl
+              | (dsimp only; cases RecordBatch.tryNew validate fields arrays <;> rfl)))
+
+/-- every finisher is `build_arrays` followed by a function of the arrays taken and of the schema of the builder,
+and leaves the builder `build_arrays` leaves: same reset core state, SAME schema -/
+theorem finishS_factor (core : Core OB Items D Out) (cvA : Conv AF AA) (cvB : Conv BF BA)
+    (validate : List AF → List AA → R Unit) (f : Finisher) (self : ArrayBuilder OB) :
+    self.finishS core cvA cvB validate f =
+      (self.toMarrow core).map fun p => (convertBuilt cvA cvB validate self.schema f p.1, p.2) := by
+  cases f <;>
+  simp only [ArrayBuilder.finishS, ArrayBuilder.toMarrowS, ArrayBuilder.toArrowS, ArrayBuilder.toArrow2S,
+    ArrayBuilder.toRecordBatchS, ArrayBuilder.toMarrow, ArrayBuilder.buildArrays, convertBuilt, bind, Except.bind,
+    pure, Except.pure, Except.map] <;>
+  cases core.takeArrays self.builder <;> rfl
+
+theorem serializeInto_schema (core : Core OB Items D Out) (self self' : ArrayBuilder OB) (items : Items)
+    (h : serializeInto core self items = .ok self') : self'.schema = self.schema := by
+  simp only [serializeInto, bind, Except.bind, pure, Except.pure] at h
+  cases hs : core.serialize self.builder items with
+  | error e => simp [hs] at h
+  | ok b => simp only [hs, Except.ok.injEq] at h; subst h; rfl
+
+theorem toMarrow_schema (core : Core OB Items D Out) (self self' : ArrayBuilder OB) (arrays : List Arr)
+    (h : self.toMarrow core = .ok (arrays, self')) : self'.schema = self.schema := by
+  simp only [ArrayBuilder.toMarrow, ArrayBuilder.buildArrays, bind, Except.bind, pure, Except.pure] at h
+  cases hs : core.takeArrays self.builder with
+  | error e => simp [hs] at h
+  | ok p => simp only [hs, Except.ok.injEq, Prod.mk.injEq] at h; obtain ⟨_, rfl⟩ := h; rfl
+
+/-- **builder_reuse_agrees.**  For EVERY history of additions and builds through ANY mix of the four finishers on ONE
+builder: the history succeeds or fails as the same history finished with `to_marrow` everywhere (same error), ends in
+the same builder, and build k through finisher `f` is `f` applied to the marrow arrays of build k — the array
+conversion of its family and, for `to_record_batch`, the converted fields of the schema the builder HAD AT THE START.
+Every finisher sees the same batches, whatever was called before. -/
+theorem builder_reuse_agrees (core : Core OB Items D Out) (cvA : Conv AF AA) (cvB : Conv BF BA)
+    (validate : List AF → List AA → R Unit) : ∀ (ops : List (HOp Items)) (self : ArrayBuilder OB),
+    runHistory core cvA cvB validate self ops =
+      (runMarrow core self ops).map fun p =>
+        (List.zipWith (convertBuilt cvA cvB validate self.schema) (finishers ops) p.1, p.2)
+  | [], self => rfl
+  | .add items :: ops, self => by
+    simp only [runHistory, runMarrow, bind, Except.bind]
+    cases hs : serializeInto core self items with
+    | error e => rfl
+    | ok self' =>
+      simp only []
+      rw [builder_reuse_agrees core cvA cvB validate ops self', serializeInto_schema core self self' items hs]
+      rfl
+  | .finish f :: ops, self => by
+    simp only [runHistory, runMarrow, bind, Except.bind, finishS_factor]
+    cases hs : self.toMarrow core with
+    | error e => rfl
+    | ok p =>
+      obtain ⟨arrays, self'⟩ := p
+      simp only [Except.map]
+      rw [builder_reuse_agrees core cvA cvB validate ops self', toMarrow_schema core self self' arrays hs]
+      cases runMarrow core self' ops with
+      | error e => rfl
+      | ok q => rfl
+
+/-- a history never changes the builder's schema, and returns one result per finisher -/
+theorem runMarrow_shape (core : Core OB Items D Out) : ∀ (ops : List (HOp Items)) (self fin : ArrayBuilder OB)
+    (outs : List (List Arr)), runMarrow core self ops = .ok (outs, fin) →
+    fin.schema = self.schema ∧ outs.length = (finishers ops).length
+  | [], self, fin, outs, h => by
+    simp only [runMarrow, Except.ok.injEq, Prod.mk.injEq] at h
+    obtain ⟨rfl, rfl⟩ := h
+    exact ⟨rfl, rfl⟩
+  | .add items :: ops, self, fin, outs, h => by
+    simp only [runMarrow, bind, Except.bind] at h
+    cases hs : serializeInto core self items with
+    | error e => simp [hs] at h
+    | ok self' =>
+      simp only [hs] at h
+      obtain ⟨h1, h2⟩ := runMarrow_shape core ops self' fin outs h
+      exact ⟨h1.trans (serializeInto_schema core self self' items hs), h2⟩
+  | .finish f :: ops, self, fin, outs, h => by
+    simp only [runMarrow, bind, Except.bind] at h
+    cases hs : self.toMarrow core with
+    | error e => simp [hs] at h
+    | ok p =>
+      obtain ⟨arrays, self'⟩ := p
+      simp only [hs] at h
+      cases hr : runMarrow core self' ops with
+      | error e => simp [hr] at h
+      | ok q =>
+        obtain ⟨outs', fin'⟩ := q
+        simp only [hr, pure, Except.pure, Except.ok.injEq, Prod.mk.injEq] at h
+        obtain ⟨rfl, rfl⟩ := h
+        obtain ⟨h1, h2⟩ := runMarrow_shape core ops self' fin' outs' hr
+        exact ⟨h1.trans (toMarrow_schema core self self' arrays hs), by simp [finishers, List.filterMap, HOp.finisher?, h2]⟩
+
+/-- the indexed form: build k of a successful history, made through finisher `f`, is `f` applied to the marrow arrays
+of build k of the same history, under the schema the builder started with -/
+theorem builder_reuse_each (core : Core OB Items D Out) (cvA : Conv AF AA) (cvB : Conv BF BA)
+    (validate : List AF → List AA → R Unit) (ops : List (HOp Items)) (self fin : ArrayBuilder OB)
+    (outs : List (R (Built AF AA BA))) (h : runHistory core cvA cvB validate self ops = .ok (outs, fin)) :
+    ∃ mouts, runMarrow core self ops = .ok (mouts, fin) ∧ fin.schema = self.schema ∧
+      outs.length = (finishers ops).length ∧ mouts.length = (finishers ops).length ∧
+      ∀ (k : Nat) (f : Finisher) (arrays : List Arr), (finishers ops)[k]? = some f → mouts[k]? = some arrays →
+        outs[k]? = some (convertBuilt cvA cvB validate self.schema f arrays) := by
+  rw [builder_reuse_agrees] at h
+  cases hm : runMarrow core self ops with
+  | error e => simp [hm, Except.map] at h
+  | ok p =>
+    obtain ⟨mouts, fin'⟩ := p
+    simp only [hm, Except.map, Except.ok.injEq, Prod.mk.injEq] at h
+    obtain ⟨rfl, rfl⟩ := h
+    obtain ⟨h1, h2⟩ := runMarrow_shape core ops self fin' mouts hm
+    refine ⟨mouts, rfl, h1, by simp [h2], h2, ?_⟩
+    intro k f arrays hf ha
+    simp [List.getElem?_zipWith, hf, ha]
+
+theorem convertBuilt_recordBatch (cvA : Conv AF AA) (cvB : Conv BF BA) (validate : List AF → List AA → R Unit)
+    (schema : List Field) (f : Finisher) (arrays : List Arr) (b : RecordBatch AF AA)
+    (h : convertBuilt cvA cvB validate schema f arrays = .ok (Built.recordBatch (BA := BA) b)) :
+    f = .recordBatch ∧ schema.mapM cvA.fieldOfMarrow = .ok b.fields ∧ b.schemaMetadata = [] ∧
+    arrays.mapM cvA.arrayOfMarrow = .ok b.columns ∧ validate b.fields b.columns = .ok () := by
+  cases f with
+  | marrow => simp [convertBuilt] at h
+  | arrow => simp only [convertBuilt, Except.map] at h; cases hc : List.mapM cvA.arrayOfMarrow arrays <;> simp [hc] at h
+  | arrow2 => simp only [convertBuilt, Except.map] at h; cases hc : List.mapM cvB.arrayOfMarrow arrays <;> simp [hc] at h
+  | recordBatch =>
+    simp only [convertBuilt, recordBatchOf, RecordBatch.tryNew, fieldRefsOfSchema, Except.map, bind, Except.bind, pure,
+      Except.pure] at h
+    cases hc : List.mapM cvA.arrayOfMarrow arrays with
+    | error e => simp [hc] at h
+    | ok cols =>
+      simp only [hc] at h
+      cases hf : List.mapM cvA.fieldOfMarrow schema with
+      | error e => simp [hf] at h
+      | ok fields =>
+        simp only [hf] at h
+        cases hv : validate fields cols with
+        | error e => simp [hv] at h
+        | ok u =>
+          simp only [hv, Except.ok.injEq, Built.recordBatch.injEq] at h
+          subst h
+          exact ⟨rfl, rfl, rfl, rfl, hv⟩
+
+/-- **record_batch_schema_stable.**  EVERY record batch a builder hands out during a history — the first, the second,
+after any number of other builds through any finisher — carries the converted fields of the schema the builder was
+created with (metadata included) and no schema-level metadata; its columns are the arrow conversion of the marrow
+arrays of that build.  Hence any two batches of one builder have the same fields. -/
+theorem record_batch_schema_stable (core : Core OB Items D Out) (cvA : Conv AF AA) (cvB : Conv BF BA)
+    (validate : List AF → List AA → R Unit) (ops : List (HOp Items)) (self fin : ArrayBuilder OB)
+    (outs : List (R (Built AF AA BA))) (h : runHistory core cvA cvB validate self ops = .ok (outs, fin)) :
+    (∀ (k : Nat) (b : RecordBatch AF AA), outs[k]? = some (.ok (.recordBatch b)) →
+      self.schema.mapM cvA.fieldOfMarrow = .ok b.fields ∧ b.schemaMetadata = [] ∧
+      ∃ mouts arrays, runMarrow core self ops = .ok (mouts, fin) ∧ mouts[k]? = some arrays ∧
+        arrays.mapM cvA.arrayOfMarrow = .ok b.columns) ∧
+    (∀ (k k' : Nat) (b b' : RecordBatch AF AA), outs[k]? = some (.ok (.recordBatch b)) →
+      outs[k']? = some (.ok (.recordBatch b')) → b.fields = b'.fields ∧ b.schemaMetadata = b'.schemaMetadata) := by
+  obtain ⟨mouts, hm, _, hl1, hl2, hk⟩ := builder_reuse_each core cvA cvB validate ops self fin outs h
+  have one : ∀ (k : Nat) (b : RecordBatch AF AA), outs[k]? = some (.ok (.recordBatch b)) →
+      self.schema.mapM cvA.fieldOfMarrow = .ok b.fields ∧ b.schemaMetadata = [] ∧
+      ∃ mouts arrays, runMarrow core self ops = .ok (mouts, fin) ∧ mouts[k]? = some arrays ∧
+        arrays.mapM cvA.arrayOfMarrow = .ok b.columns := by
+    intro k b hb
+    have hlt : k < outs.length := by
+      rcases Nat.lt_or_ge k outs.length with h | h
+      · exact h
+      · rw [List.getElem?_eq_none h] at hb; cases hb
+    have hf : (finishers ops)[k]? = some (finishers ops)[k] := List.getElem?_eq_getElem (by omega)
+    have ha : mouts[k]? = some mouts[k] := List.getElem?_eq_getElem (by omega)
+    have := hk k _ _ hf ha
+    rw [hb] at this
+    simp only [Option.some.injEq] at this
+    obtain ⟨_, h2, h3, h4, _⟩ := convertBuilt_recordBatch cvA cvB validate _ _ _ b this.symm
+    exact ⟨h2, h3, mouts, _, hm, ha, h4⟩
+  refine ⟨one, ?_⟩
+  intro k k' b b' hb hb'
+  obtain ⟨h1, h2, _⟩ := one k b hb
+  obtain ⟨h1', h2', _⟩ := one k' b' hb'
+  rw [h1] at h1'
+  exact ⟨by simpa using h1', by rw [h2, h2']⟩
+
+/-! ### the readers' count checks -/
+
+/-- **reader_count_mismatch_refused.**  A different number of fields and arrays is refused by the reader constructors of
+all three families, and by the one-call readers built on them:
+`from_arrow`, `from_arrow2`, `from_record_batch` with the adapters' own error — it wins over every field or array
+conversion error, whatever the conversions do —, `from_marrow` with the error of `Deserializer::new` (for a core that
+has the check: `Core.RefusesCounts`).  All of them are errors, none a panic. -/
+theorem reader_count_mismatch_refused (core : Core OB Items D Out) (cvA : Conv AF AA) (cvB : Conv BF BA) :
+    (∀ (afs : List AF) (as : List AA), afs.length ≠ as.length →
+      Deserializer.fromArrow core cvA afs as = countMismatch afs.length as.length ∧
+      fromArrow core cvA afs as = countMismatch afs.length as.length) ∧
+    (∀ (bfs : List BF) (bs : List BA), bfs.length ≠ bs.length →
+      Deserializer.fromArrow2 core cvB bfs bs = countMismatch bfs.length bs.length ∧
+      fromArrow2 core cvB bfs bs = countMismatch bfs.length bs.length) ∧
+    (∀ (batch : RecordBatch AF AA), batch.fields.length ≠ batch.columns.length →
+      Deserializer.fromRecordBatch core cvA batch = countMismatch batch.fields.length batch.columns.length ∧
+      fromRecordBatch core cvA batch = countMismatch batch.fields.length batch.columns.length) ∧
+    (core.RefusesCounts → ∀ (fs : List Field) (vs : List Arr), fs.length ≠ vs.length →
+      ∃ msg, Deserializer.fromMarrow core fs vs = .error (.err msg) ∧ fromMarrow core fs vs = .error (.err msg)) := by
+  have hA : ∀ {F A : Type} (cv : Conv F A) (afs : List F) (as : List A), afs.length ≠ as.length →
+      Deserializer.fromArrow core cv afs as = countMismatch afs.length as.length ∧
+      fromArrow core cv afs as = countMismatch afs.length as.length := by
+    intro F A cv afs as h
+    have h' : (afs.length != as.length) = true := by simpa using h
+    have h1 : Deserializer.fromArrow core cv afs as = countMismatch afs.length as.length := by
+      simp only [Deserializer.fromArrow, h', if_true]
+    exact ⟨h1, by simp only [fromArrow, h1]; rfl⟩
+  refine ⟨fun afs as h => hA cvA afs as h, fun bfs bs h => hA cvB bfs bs h, fun batch h => hA cvA _ _ h, ?_⟩
+  intro hcore fs vs h
+  obtain ⟨msg, hm⟩ := hcore fs vs h
+  exact ⟨msg, hm, by simp only [fromMarrow, Deserializer.fromMarrow, hm]; rfl⟩
+
+/-- **readers_fail_together_on_counts.**  The same mismatch handed to every family — field lists of one length, array
+lists of another — : `from_marrow`, `from_arrow`, `from_arrow2` and `from_record_batch` ALL fail, all with an error
+(class `err`, none succeeds, none panics), the arrow and arrow2 families with literally the same error.  (With equal
+counts the adapters' own check passes and `fromArrow_compose` / `backends_agree_read` apply.) -/
+theorem readers_fail_together_on_counts (core : Core OB Items D Out) (hcore : core.RefusesCounts)
+    (cvA : Conv AF AA) (cvB : Conv BF BA) (fs : List Field) (vs : List Arr) (afs : List AF) (as : List AA)
+    (bfs : List BF) (bs : List BA) (md : Metadata)
+    (hfa : afs.length = fs.length) (hfb : bfs.length = fs.length) (haa : as.length = vs.length)
+    (hbb : bs.length = vs.length) (hne : fs.length ≠ vs.length) :
+    (fromMarrow core fs vs).cls = "err" ∧ (fromArrow core cvA afs as).cls = "err" ∧
+    (fromArrow2 core cvB bfs bs).cls = "err" ∧
+    (fromRecordBatch core cvA { fields := afs, schemaMetadata := md, columns := as }).cls = "err" ∧
+    fromArrow core cvA afs as = fromArrow2 core cvB bfs bs ∧
+    fromRecordBatch core cvA { fields := afs, schemaMetadata := md, columns := as } = fromArrow core cvA afs as ∧
+    (Deserializer.fromMarrow core fs vs).cls = "err" ∧ (Deserializer.fromArrow core cvA afs as).cls = "err" ∧
+    (Deserializer.fromArrow2 core cvB bfs bs).cls = "err" := by
+  obtain ⟨hA, hB, _, hM⟩ := reader_count_mismatch_refused core cvA cvB
+  obtain ⟨msg, hm1, hm2⟩ := hM hcore fs vs hne
+  obtain ⟨ha1, ha2⟩ := hA afs as (by omega)
+  obtain ⟨hb1, hb2⟩ := hB bfs bs (by omega)
+  refine ⟨by rw [hm2]; rfl, by rw [ha2]; rfl, by rw [hb2]; rfl, by rw [fromRecordBatch_eq, ha2]; rfl, ?_, rfl,
+    by rw [hm1]; rfl, by rw [ha1]; rfl, by rw [hb1]; rfl⟩
+  rw [ha2, hb2, hfa, hfb, haa, hbb]
+
+/-- a core whose `Deserializer::new` starts with the count check of deserializer.rs has the property the marrow
+family needs -/
+theorem counted_refuses (core : Core OB Items D Out) : core.counted.RefusesCounts := by
+  intro fs vs h
+  have h' : (fs.length != vs.length) = true := by simpa using h
+  exact ⟨_, by simp only [Core.counted, deserializerNewCounted, h', if_true]; rfl⟩
+
+/-- … and so does the model of `Deserializer::new` the reading-side properties (C12, C13) are about: `Access.new true`
+(the repaired constructor) refuses every count mismatch with an error; `Access.new false` (the pinned one, which
+zipped) accepted some -/
+theorem access_new_refuses (nfields : Nat) (viewLens : List Nat) (h : nfields ≠ viewLens.length) :
+    ∃ msg, SaModel.Access.new true nfields viewLens = .error (.err msg) := by
+  have h' : (nfields != viewLens.length) = true := by simpa using h
+  exact ⟨_, by simp only [SaModel.Access.new, h', Bool.true_and, if_true]; rfl⟩
+
 end
 
 /-! ### version selection -/
@@ -775,6 +1063,76 @@ example : toArrow toyCore (toyConv true) [.mk "a" .int64 false []] [1, 2] = .err
 example : toArrow toyCore (toyConv true) [] [1, 2] = .error (.err "no fields") := by decide
 example : (toRecordBatch toyCore (toyConv false) (fun _ _ => .ok ()) [.mk "a" .int64 false [("k", "v")]] [1]).map (·.fields) =
     .ok [.mk "a" .int64 false [("k", "v")]] := by decide
+
+/-! #### one builder, several builds; count mismatches -/
+
+/-- arrow's column-count check as `validate` -/
+def toyValidate : List Field → List Arr → R Unit :=
+  fun fs as => if fs.length == as.length then .ok () else fail "number of columns"
+
+def toyField : Field := .mk "a" .int64 false [("k", "v")]
+def toyBuilder : ArrayBuilder (List Int) := { builder := [], schema := [toyField] }
+
+def builtFields : R (Built Field Arr Arr) → Option (List Field)
+  | .ok (.recordBatch b) => some b.fields
+  | _ => none
+
+def builtArrays : R (Built Field Arr Arr) → Option (List Arr)
+  | .ok (.marrow a) => some a
+  | .ok (.arrow a) => some a
+  | .ok (.arrow2 a) => some a
+  | .ok (.recordBatch b) => some b.columns
+  | _ => none
+
+/-- a history through all four finishers, `to_record_batch` twice: every build returns its own batch, the builder goes
+on after the build that fails in the arrow2 conversion, both record batches carry the builder's field with its metadata
+(`builder_reuse_agrees`, `record_batch_schema_stable` with non-trivial content) -/
+def toyHistory : List (HOp (List Int)) :=
+  [.add [1, 2], .finish .recordBatch, .add [3], .finish .arrow2, .finish .marrow, .add [4], .add [5], .finish .recordBatch,
+   .finish .arrow]
+
+example : (runHistory toyCore (toyConv false) (toyConv true) toyValidate toyBuilder toyHistory).map
+      (fun p => (p.1.map builtArrays, p.1.map builtFields, p.2.schema)) =
+    .ok ([some [.prim .int64 none [1, 2]], none, some [.prim .int64 none []], some [.prim .int64 none [4, 5]],
+          some [.prim .int64 none []]],
+         [some [toyField], none, none, some [toyField], none], [toyField]) := by decide
+
+example : (runMarrow toyCore toyBuilder toyHistory).map (·.1) =
+    .ok [[.prim .int64 none [1, 2]], [.prim .int64 none [3]], [.prim .int64 none []], [.prim .int64 none [4, 5]],
+         [.prim .int64 none []]] := by decide
+
+/-- the regression `to_record_batch` MOVES the schema out of the builder is told apart by `record_batch_schema_stable`:
+with it the second batch of one builder is refused (no field for the column) where the model — the code as it is —
+returns a second batch with the same fields -/
+example :
+    (do let (r1, s1) ← toyBuilder.toRecordBatchTakingS toyCore (toyConv false) toyValidate
+        let (r2, _) ← s1.toRecordBatchTakingS toyCore (toyConv false) toyValidate
+        pure (r1.map (·.fields), r2.map (·.fields)) : R (R (List Field) × R (List Field))) =
+      .ok (.ok [toyField], .error (.err "number of columns")) ∧
+    (do let (r1, s1) ← toyBuilder.toRecordBatchS toyCore (toyConv false) toyValidate
+        let (r2, _) ← s1.toRecordBatchS toyCore (toyConv false) toyValidate
+        pure (r1.map (·.fields), r2.map (·.fields)) : R (R (List Field) × R (List Field))) =
+      .ok (.ok [toyField], .ok [toyField]) := by decide
+
+/-- count mismatches: the three adapters refuse with their own error although the field conversion would fail too
+(`gapConv`), the marrow family refuses through the core's check (`toyCore.counted`); the regression "`from_arrow2`
+zips fields and arrays" accepts the same input -/
+def gapConv : Conv Field Arr where
+  fieldToMarrow := fun _ => fail "unsupported field"
+  fieldOfMarrow := pure
+  arrayOfMarrow := pure
+  viewOf := fun _ => fail "unsupported array"
+
+example : fromArrow toyCore gapConv [toyField, toyField] [.prim .int64 none [1]] = countMismatch 2 1 := by decide
+example : fromArrow2 toyCore gapConv [toyField] [] = countMismatch 1 0 := by decide
+example : fromRecordBatch toyCore gapConv { fields := [], schemaMetadata := [], columns := [.prim .int64 none [1]] } =
+    countMismatch 0 1 := by decide
+example : (fromMarrow toyCore.counted [toyField] []).cls = "err" := by decide
+example : fromMarrow toyCore.counted [toyField] [.prim .int64 none [1]] = .ok 1 := by decide
+example : (Deserializer.fromArrow2Zipping toyCore (toyConv false) [toyField] []).isOk = true ∧
+    (Deserializer.fromArrow2 toyCore (toyConv false) [toyField] []).cls = "err" := by decide
+example : SaModel.Access.new true 2 [3] = .error (.err "Cannot deserialize: number of fields and arrays differ") ∧
+    SaModel.Access.new false 2 [3] = .ok 3 := by decide
 
 end examples
 
